@@ -61,23 +61,28 @@ def run(prop, obligations, tier, seed, jobs=0):
     prepare()
     groups = {}
     for o in obligations:
-        key = (tuple(o["features"]), int(o.get("timeout", 300) * (1 if tier == "quick" else o.get("thorough_timeout_factor", 3))))
+        key = (tuple(o["features"]), tuple(sorted(o.get("env", {}).items())))
         groups.setdefault(key, []).append(o)
     results = []
-    for (features, timeout), obls in groups.items():
+    for (features, envkv), obls in groups.items():
+        # one invocation per (features, env): the per-harness timeout is the largest one asked for in the group
+        timeout = max(int(o.get("timeout", 300) * (1 if tier == "quick" else o.get("thorough_timeout_factor", 2))) for o in obls)
         # seed only permutes job order
         if seed:
             k = seed % len(obls)
             obls = obls[k:] + obls[:k]
         j = jobs or min(len(obls), int(os.environ.get("VERIF_MAX_JOBS", "12")))
-        json_out = os.path.join(CACHE, f"kani_{prop['id']}_{'_'.join(features)}_{timeout}.json")
+        tagenv = "_".join(f"{k}{v}" for k, v in envkv)
+        json_out = os.path.join(CACHE, f"kani_{prop['id']}_{'_'.join(features)}_{timeout}_{tagenv}.json")
         if os.path.exists(json_out):
             os.remove(json_out)
         log = json_out[:-5] + ".log"
         cmd = _kani_cmd(list(features), [_qual(o) for o in obls], timeout, j, json_out, TARGET)
         t0 = time.time()
+        env = _env()
+        env.update(dict(envkv))
         with open(log, "w") as lf:
-            p = subprocess.run(cmd, cwd=HARNESS, env=_env(), stdout=lf, stderr=subprocess.STDOUT, preexec_fn=_limit)
+            p = subprocess.run(cmd, cwd=HARNESS, env=env, stdout=lf, stderr=subprocess.STDOUT, preexec_fn=_limit)
         dt = time.time() - t0
         out = open(log, errors="replace").read()
         if not os.path.exists(json_out):
@@ -97,11 +102,11 @@ def run(prop, obligations, tier, seed, jobs=0):
                 results.append({"obligation": o, "verdict": "not_run", "seconds": 0.0,
                                 "detail": "harness missing from kani results (name/module mismatch or compile filter)"})
                 continue
-            results.append(_classify(prop, o, r, stats.get(q, {}), out, features, timeout))
+            results.append(_classify(prop, o, r, stats.get(q, {}), out, features, timeout, dict(envkv)))
     return results
 
 
-def _classify(prop, o, r, st, out, features, timeout):
+def _classify(prop, o, r, st, out, features, timeout, extra_env=None):
     checks = r.get("checks", [])
     covers = [c for c in checks if c.get("category") == "cover"]
     sat = [c for c in covers if c["status"] == "Satisfied"]
@@ -152,7 +157,7 @@ def _classify(prop, o, r, st, out, features, timeout):
         # pinned witness of a listed finding: the failing input is fixed in the harness itself
         res["verdict"] = "violated"
         return res
-    rep = replay(prop, o, features, timeout)
+    rep = replay(prop, o, features, timeout, extra_env or {})
     res.update(rep)
     return res
 
@@ -169,7 +174,7 @@ def _scratch_crate(tag):
     return d
 
 
-def replay(prop, o, features, timeout):
+def replay(prop, o, features, timeout, extra_env=None):
     """Ask Kani for a concrete playback test of the failing harness, then run it natively."""
     tag = f"{prop['id']}_{o['name']}"
     d = _scratch_crate(tag)
@@ -177,7 +182,9 @@ def replay(prop, o, features, timeout):
     cmd = ["cargo", "kani", "--features", ",".join(features), "--target-dir", target,
            "-Z", "unstable-options", "-Z", "stubbing", "-Z", "concrete-playback", "--concrete-playback=print",
            "--harness-timeout", f"{timeout}s", "--exact", "--harness", _qual(o)]
-    p = subprocess.run(cmd, cwd=d, env=_env(), stdout=subprocess.PIPE, stderr=subprocess.STDOUT, preexec_fn=_limit)
+    env = _env()
+    env.update(extra_env or {})
+    p = subprocess.run(cmd, cwd=d, env=env, stdout=subprocess.PIPE, stderr=subprocess.STDOUT, preexec_fn=_limit)
     out = p.stdout.decode(errors="replace")
     # Kani also emits playback tests for satisfied cover! witnesses; only failing checks are replayed
     blocks = [b for b in re.findall(r"```\s*\n(.*?)```", out, re.S) if "#[test]" in b and "Check for `cover`" not in b]
@@ -197,7 +204,7 @@ def replay(prop, o, features, timeout):
         f.write(f"// module-file: {o['module'].replace('::', '/')}.rs\n// test-name: {tname}\n")
         f.write(f"// run: /verif/check {prop['id']} --replay {rpath}\n")
         f.write(test_src)
-    verdicts = _native(d, o, features, test_src, tname)
+    verdicts = _native(d, o, features, test_src, tname, extra_env)
     shutil.rmtree(d, ignore_errors=True)
     if verdicts.get("dev") == "fails" or verdicts.get("release") == "fails":
         return {"verdict": "violated", "replay": rpath,
@@ -206,7 +213,7 @@ def replay(prop, o, features, timeout):
             "detail": f"counterexample did not reproduce natively (dev={verdicts.get('dev')}, release={verdicts.get('release')}): encoding or stub error"}
 
 
-def _native(d, o, features, test_src, tname):
+def _native(d, o, features, test_src, tname, extra_env=None):
     src = os.path.join(d, "src", o["module"].replace("::", "/") + ".rs")
     with open(src, "a") as f:
         f.write("\n" + test_src + "\n")
@@ -215,6 +222,7 @@ def _native(d, o, features, test_src, tname):
         cmd = ["cargo", "kani", "playback", "-Z", "concrete-playback", "--features", ",".join(features)]
         cmd += ["--", tname]
         env = _env()
+        env.update(extra_env or {})
         env["CARGO_TARGET_DIR"] = os.path.join(CACHE, "target_playback_" + prof)
         if prof == "release":
             # `cargo kani playback` has no --release; give the test profile release semantics instead
